@@ -1,10 +1,22 @@
 """C18 — rollback restores, commit keeps (AuditableStore).  DESIGN §6 C18.
 
-Case = {"cfg": "graph"|"cg"|"ds", "two": bool, "init": [[s,p,o,c]…],
-        "ops": [["add",w,s,p,o,c] | ["remove",w,s,p,o,c] (None = wildcard) | ["commit",w] | ["rollback",w]]}
+Case = {"cfg": "graph"|"sgraph"|"cg"|"nest", "two": bool, "init": [[s,p,o,c]…],
+        "ops": [["add",w,s,p,o,c(,route)] | ["remove",w,s,p,o,c(,route)] (None = wildcard) | ["commit",w] | ["rollback",w]
+                | compound writes (addn, parse, set, isub, rmctx, addf)
+                | ["upd",w,"insert"|"delete",quads] | ["upd",w,"clear",c] | ["upd",w,"delwhere",s,p,o,c]   (round g: SPARQL Update through Graph.update)
+                | ["bind",w,pfx,ns,override] | ["pass",w,kind]                      (round g: pass-through, not logged)
+                | ["triples",w,s,p,o,c] | ["len",w,c] | ["ctxs",w] | ["tctx",w,s,p,o] | ["ns",w]   (round g: reads through the wrapper)]}
+route (round g): absent = through Graph / ConjunctiveGraph objects as before; "store" = the wrapper's own add()/remove();
+"ident" = ConjunctiveGraph quad whose graph is given as an identifier, not a Graph object; "ctxobj" = through the Graph object that
+ConjunctiveGraph.contexts() (= AuditableStore.contexts()) hands out for that name, when there is one; "self" = a quad of the
+default graph given as `(s, p, o, cg)` with cg the ConjunctiveGraph itself (the wrapper then receives a ConjunctiveGraph as context).
+cfg "nest" (round g): ConjunctiveGraph over AuditableStore(AuditableStore(Memory)); wrapper 0 = outer (all operations),
+wrapper 1 = inner (commit / rollback behind the outer wrapper's back).
 Terms are small integers (vocabulary below, falsy literals included); graph names 90…93 (93 = the name rdflib gives a graph requested as <>).
-Observation after every op: the quad set of the *underlying* Memory store.
-Property oracle (independent of Lean): snapshot at transaction begin / at commit.
+Observation after every write: the quad set of the *underlying* Memory store (compared with the code-shaped model AND with the
+abstract model of rounds 1-f); after every read: what the wrapper answered.
+Property oracle (independent of Lean): snapshot at transaction begin / at commit; reads through the wrapper = the underlying
+store's content; pass-through calls and binds change no quad; bindings are those a plain dict pair would hold.
 """
 import warnings
 
@@ -20,8 +32,9 @@ LEAN_TARGETS = ["RV.C18.Props", "RV.C18.Audit"]
 AUDIT = "RV/C18/Audit.lean"
 DRIVER = "drv_c18"
 CASES = {"quick": 1500, "thorough": 40000, "search": 20000}
-RULE = ("random histories (1-14 ops) of add / batch addN and += (duplicates inside a batch) / parse of an N-Triples document into a graph / Graph.set / -= / remove_context / pattern-remove / commit / rollback through Graph, ConjunctiveGraph "
-        "over AuditableStore(Memory) or a Graph over AuditableStore(SimpleMemory), one or two wrappers (disjoint subjects); non-trivial = at least one "
+RULE = ("random histories (1-14 ops) of add / batch addN and += (duplicates inside a batch) / parse of an N-Triples document into a graph / Graph.set / -= / remove_context / SPARQL Update (INSERT DATA, DELETE DATA, DELETE WHERE, CLEAR GRAPH through Graph.update) / pattern-remove / commit / rollback through Graph, ConjunctiveGraph "
+        "(graph given as Graph object or as identifier) or the wrapper's own add()/remove(), interleaved with bind, open/close/destroy/query and reads through the wrapper (triples, __len__, contexts, namespaces), "
+        "over AuditableStore(Memory), a Graph over AuditableStore(SimpleMemory), or AuditableStore(AuditableStore(Memory)) with inner commits/rollbacks; one or two wrappers (disjoint subjects); non-trivial = at least one "
         "rollback or commit happens while the undo log is non-empty; distinct = distinct (cfg, init, ops)")
 ASSUMPTIONS = ["the wrapped Memory store behaves as a set of quads (C01/C02)",
                "two wrappers touch disjoint triples as the property states (disjoint subject sets)"]
@@ -37,6 +50,10 @@ SUBJ_REV = {v: k for k, v in SUBJ.items()}
 PRED_REV = {v: k for k, v in PRED.items()}
 OBJ_REV = {v: k for k, v in OBJ.items()}
 DEFAULT_G = 99  # the dataset's / conjunctive graph's default graph
+PFX = {1: "zpa", 2: "zpb", 3: ""}           # prefixes (the falsy one included); none is among rdflib's default bindings
+NSP = {7: URIRef("http://n/7#"), 8: URIRef("http://n/8#"), 9: URIRef("http://n/9#")}
+PASS_KINDS = ["open", "close", "close_commit", "destroy", "query"]
+READS = ("triples", "len", "ctxs", "tctx", "ns")
 
 
 def _ids(cfg):
@@ -52,13 +69,25 @@ def _ids(cfg):
 
 
 def gen_case(rng, tier, i):
-    cfg = rng.choice(["graph", "sgraph", "cg", "cg", "cg"])  # sgraph: the wrapped store is SimpleMemory; Dataset refuses a non-graph-aware store such as AuditableStore
+    # sgraph: the wrapped store is SimpleMemory; Dataset refuses a non-graph-aware store such as AuditableStore;
+    # nest: a wrapper over a wrapper
+    cfg = rng.choice(["graph", "sgraph", "cg", "cg", "cg", "nest"])
     two = cfg == "cg" and rng.random() < 0.3
+    nest = cfg == "nest"
     graphs = [DEFAULT_G] if cfg in ("graph", "sgraph") else [90, 91, 92, 93, DEFAULT_G]
     subs = list(SUBJ)
 
     def quad(ss):
         return [rng.choice(ss), rng.choice(list(PRED)), rng.choice(list(OBJ)[: rng.choice([2, 6])]), rng.choice(graphs)]
+
+    def route():
+        if cfg == "sgraph":
+            return []
+        r_ = rng.choice([None, None, "store", "ident", "ctxobj", "self"] if cfg in ("cg", "nest") else [None, None, "store"])
+        return [r_] if r_ else []
+
+    def known(kinds):
+        return [o[2:6] for o in ops if o[0] in kinds and None not in o[2:6]]
 
     init = []
     for _ in range(rng.randint(0, 5)):
@@ -70,10 +99,70 @@ def gen_case(rng, tier, i):
     for _ in range(n):
         w = rng.randint(0, 1) if two else 0
         ss = ([1, 2] if w == 0 else [3, 4]) if two else subs
+        r0 = rng.random()
+        if r0 < 0.05:
+            # binds come in bursts, so that a prefix or a namespace is re-bound (override and no-override clashes)
+            for _k in range(rng.randint(1, 3)):
+                ops.append(["bind", w, rng.choice(list(PFX)), rng.choice(list(NSP)), rng.randint(0, 1)])
+            if rng.random() < 0.5:
+                ops.append(["ns", w])
+            continue
+        if r0 < 0.08:
+            ops.append(["pass", w, rng.choice(PASS_KINDS)])
+            continue
+        if r0 < 0.20:
+            wr = rng.randint(0, 1) if (two or nest) else 0          # reads through either wrapper
+            kind = rng.choice(["ns"] if cfg == "sgraph" else ["triples", "triples", "len", "ctxs", "tctx", "ns"])
+            pool = init + known(("add",))
+            q = list(rng.choice(pool)) if pool and rng.random() < 0.7 else quad(subs)
+            if kind == "triples":
+                mask = rng.choice([0, 1, 2, 3, 4, 5, 6, 7, 7])
+                for b_, j in ((1, 1), (2, 2), (4, 0)):
+                    if mask & b_:
+                        q[j] = None
+                if rng.random() < 0.5:
+                    q[3] = None
+                ops.append(["triples", wr] + q)
+            elif kind == "len":
+                ops.append(["len", wr, q[3] if rng.random() < 0.7 else None])
+            elif kind == "tctx":
+                ops.append(["tctx", wr] + q[:3])
+            else:
+                ops.append([kind, wr])
+            continue
+        if r0 < 0.26 and cfg != "sgraph":
+            # SPARQL Update through Graph.update (the wrapper has no update(): rdflib's own processor evaluates the request
+            # and calls add / remove on the graphs): ground terms and IRI-named graphs only
+            ground = [x for x in ss if x != 2] or [1]
+            named = [DEFAULT_G] if cfg == "graph" else [90, 91, DEFAULT_G]
+            sub = rng.choice(["insert", "insert", "delete", "delwhere", "delwhere"] + (["clear"] if cfg != "graph" and not two else []))
+            c_ = rng.choice(named)
+
+            def gq():
+                return [rng.choice(ground), rng.choice(list(PRED)), rng.choice([20, 21, 22, 23, 24]), c_]
+            pool = [q for q in init + known(("add",)) if q[0] in ground and q[2] != 25 and q[3] in named]
+            if sub in ("insert", "delete"):
+                qs = []
+                for _k in range(rng.randint(1, 3)):
+                    q = list(rng.choice(pool)) if pool and rng.random() < (0.3 if sub == "insert" else 0.7) else gq()
+                    qs.append(q[:3] + [c_])
+                ops.append(["upd", w, sub, qs])
+            elif sub == "clear":
+                ops.append(["upd", w, "clear", c_])
+            else:
+                q = list(rng.choice(pool)) if pool and rng.random() < 0.7 else gq()
+                mask = rng.choice([1, 2, 3, 3]) if two else rng.choice([1, 2, 3, 4, 5, 6, 7])
+                for b_, j in ((1, 1), (2, 2), (4, 0)):
+                    if mask & b_:
+                        q[j] = None
+                # (always inside GRAPH <g>: without it rdflib's update evaluator matches in the union but deletes from the
+                #  default graph only - with or without the wrapper; that is the SPARQL subsystem's business, not C18's)
+                ops.append(["upd", w, "delwhere"] + q)
+            continue
         r = rng.random()
         if r < 0.10:
             # batch add (Graph.addN / ConjunctiveGraph.addN / +=): 1-4 quads, duplicates and re-adds likely
-            pool = [q for q in init if q[0] in ss] + [o[2:] for o in ops if o[0] in ("add", "remove") and None not in o[2:] and o[2] in ss]
+            pool = [q for q in init if q[0] in ss] + [q for q in known(("add", "remove")) if q[0] in ss]
             qs = []
             for _k in range(rng.randint(1, 4)):
                 q = list(rng.choice(pool)) if pool and rng.random() < 0.6 else quad(ss)
@@ -95,17 +184,17 @@ def gen_case(rng, tier, i):
             ops.append(["set", w] + quad(ss))
         elif r < 0.17:
             # graph -= [triples]: exact removes, present and absent ones
-            pool = [q for q in init if q[0] in ss] + [o[2:] for o in ops if o[0] == "add" and o[2] in ss]
+            pool = [q for q in init if q[0] in ss] + [q for q in known(("add",)) if q[0] in ss]
             c_ = rng.choice(graphs)
             qs = []
             for _k in range(rng.randint(1, 3)):
                 q = list(rng.choice(pool)) if pool and rng.random() < 0.7 else quad(ss)
                 qs.append(q[:3] + [c_])
             ops.append(["isub", w, qs])
-        elif r < 0.18 and cfg == "cg" and not two:
+        elif r < 0.18 and cfg in ("cg", "nest") and not two:
             # ConjunctiveGraph.remove_context(g): the whole graph goes
             ops.append(["rmctx", w, rng.choice(graphs)])
-        elif r < 0.20 and cfg == "cg":
+        elif r < 0.20 and cfg in ("cg", "nest"):
             q = quad(ss)
             extra = []
             for _k in range(rng.randint(0, 2)):
@@ -115,9 +204,13 @@ def gen_case(rng, tier, i):
         elif r < 0.38:
             pool = [q for q in init if q[0] in ss]
             q = rng.choice(pool) if pool and rng.random() < 0.5 else quad(ss)
-            ops.append(["add", w] + q)
+            rt = route()
+            q = list(q)
+            if rt == ["self"]:
+                q[3] = DEFAULT_G
+            ops.append(["add", w] + q + rt)
         elif r < 0.8:
-            pool = [q for q in init if q[0] in ss] + [o[2:] for o in ops if o[0] == "add" and o[2] in ss]
+            pool = [q for q in init if q[0] in ss] + [q for q in known(("add",)) if q[0] in ss]
             q = list(rng.choice(pool)) if pool and rng.random() < 0.7 else quad(ss)
             mask = rng.choice([0, 0, 0, 1, 2, 3, 4, 5, 6, 7]) if not two else rng.choice([0, 0, 1, 2, 3])
             if mask & 1:
@@ -126,15 +219,20 @@ def gen_case(rng, tier, i):
                 q[2] = None
             if mask & 4 and not two:
                 q[0] = None
-            if cfg == "cg" and rng.random() < 0.3:
+            if cfg in ("cg", "nest") and rng.random() < 0.3:
                 q[3] = None
-            ops.append(["remove", w] + q)
+            rt = route()
+            if rt == ["self"]:
+                q[3] = DEFAULT_G
+            ops.append(["remove", w] + q + rt)
         elif r < 0.9:
-            ops.append(["rollback", w])
+            ops.append(["rollback", (1 if rng.random() < 0.3 else 0) if nest else w])
         else:
-            ops.append(["commit", w])
+            ops.append(["commit", (1 if rng.random() < 0.4 else 0) if nest else w])
     if rng.random() < 0.8:
         ops.append(["rollback", rng.randint(0, 1) if two else 0])
+    if nest and rng.random() < 0.5:
+        ops.append(["rollback", 1])
     return {"cfg": cfg, "two": two, "init": init, "ops": ops}
 
 
@@ -150,44 +248,176 @@ def _quads(mem, gn_rev, term_rev):
     return sorted(set(out)), len(out)
 
 
+def _fmt(rows):
+    return " ".join(",".join(map(str, r)) for r in sorted(rows))
+
+
+def _bindings(st):
+    """the bindings of the vocabulary's prefixes / namespaces, as the wrapper reports them"""
+    nrev = {v: k for k, v in NSP.items()}
+    prev = {v: k for k, v in PFX.items()}
+    ns = []
+    for p, text in PFX.items():
+        n = st.namespace(text)
+        if n is not None:
+            ns.append((p, nrev.get(n, 0)))
+    pf = []
+    for n, uri in NSP.items():
+        p = st.prefix(uri)
+        if p is not None:
+            pf.append((n, prev.get(p, 0)))
+    listed = sorted((prev[p], nrev[n]) for p, n in st.namespaces() if p in prev and n in nrev)
+    return ns, pf, listed
+
+
+def _fmt_bind(ns, pf):
+    return " ".join(f"{a}={b}" for a, b in sorted(ns)) + " | " + " ".join(f"{a}={b}" for a, b in sorted(pf))
+
+
 def run_impl(case):
     cfg = case["cfg"]
     gn = _ids(cfg)
     gn_rev = {v: k for k, v in gn.items()}
     term_rev = {v: k for k, v in TERM.items()}
     simple = cfg == "sgraph"
+    nest = cfg == "nest"
     mem = SimpleMemory() if simple else Memory()
     if simple:
         cfg = "graph"           # same driving, the wrapped store is not context aware
     for s, p, o, c in case["init"]:
         mem.add((TERM[s], TERM[p], TERM[o]), Graph(store=mem, identifier=gn[c]))
-    tops = []
-    for _w in range(2 if case["two"] else 1):
-        st = AuditableStore(mem)
-        if cfg == "graph":
-            tops.append(Graph(store=st, identifier=gn[DEFAULT_G]))
-        elif cfg == "cg":
-            tops.append(ConjunctiveGraph(store=st, identifier=gn[DEFAULT_G]))
-        else:
-            tops.append(Dataset(store=st))
+    tops, sts = [], []
+    if nest:
+        inner = AuditableStore(mem)
+        outer = AuditableStore(inner)
+        sts = [outer, inner]
+        top0 = ConjunctiveGraph(store=outer, identifier=gn[DEFAULT_G])
+        tops = [top0, top0]
+        cfg = "cg"
+    else:
+        for _w in range(2 if case["two"] else 1):
+            st = AuditableStore(mem)
+            sts.append(st)
+            if cfg == "graph":
+                tops.append(Graph(store=st, identifier=gn[DEFAULT_G]))
+            elif cfg == "cg":
+                tops.append(ConjunctiveGraph(store=st, identifier=gn[DEFAULT_G]))
+            else:
+                tops.append(Dataset(store=st))
     obs, viol = [], []
+    if not all(bool(v) for v in gn.values()):
+        viol.append("truthy: a Graph carries a falsy identifier (AuditableStore.remove tests `if ctxId:`)")
     terr = (lambda w: ({1, 2} if w == 0 else {3, 4})) if case["two"] else (lambda w: set(SUBJ))
     q0, _ = _quads(mem, gn_rev, term_rev)
     snap = [set(q0), set(q0)]
     dirty = [False, False]
+    inner_rb = False            # nest: the inner wrapper rolled back since the outer transaction began
     nontrivial = False
 
     def t(x):
         return None if x is None else TERM[x]
 
+    def ctx_of(st, c):
+        return None if c is None else Graph(store=st, identifier=gn[c])
+
+    def handed_out(top, c):
+        """the Graph object contexts() hands out for the name (written through inside the transaction)"""
+        for g_ in top.contexts():
+            # (Memory hands back the context object it was given: after `cg.add((s, p, o, cg))` that is a
+            # ConjunctiveGraph, whose remove(triple) means "from every graph" - not a write to ONE graph)
+            if g_.identifier == gn[c] and not isinstance(g_, ConjunctiveGraph):
+                return g_
+        return top.get_context(gn[c])
+
+    for st_ in sts:
+        if not (st_.transaction_aware is True and st_.formula_aware is False and st_.context_aware == mem.context_aware):
+            viol.append("flags: AuditableStore must be transaction aware, not formula aware, and context aware as the wrapped store is")
+
     for k, op in enumerate(case["ops"]):
         kind, w = op[0], op[1]
         top = tops[w]
+        st = sts[w if (nest or case["two"]) else 0]
         before, _ = _quads(mem, gn_rev, term_rev)
-        if kind == "add":
-            s, p, o, c = op[2:]
-            if cfg == "graph":
+        bind_before = _bindings(st)[:2]
+        if kind in READS:
+            B = before
+            if kind == "triples":
+                s, p, o, c = op[2:6]
+                rows = []
+                for (s_, p_, o_), cg in st.triples((t(s), t(p), t(o)), ctx_of(st, c)):
+                    rows.append([SUBJ_REV[s_], PRED_REV[p_], OBJ_REV[o_]] + sorted(gn_rev.get(x.identifier, 98) for x in cg))
+                want = {}
+                for q in B:
+                    want.setdefault(q[:3], []).append(q[3])
+                want = sorted([list(tr) + sorted(cs) for tr, cs in want.items()
+                               if all(a is None or a == b for a, b in zip((s, p, o), tr)) and (c is None or c in cs)])
+                if sorted(rows) != want:
+                    viol.append(f"read: op {k} triples{(s, p, o, c)} through the wrapper answered {sorted(rows)}, the store holds {want}")
+                obs.append(_fmt(rows))
+            elif kind == "len":
+                c = op[2]
+                n_ = st.__len__(ctx_of(st, c)) if c is not None else len(st)
+                want = len({q[:3] for q in B}) if c is None else len([q for q in B if q[3] == c])
+                if n_ != want:
+                    viol.append(f"read: op {k} __len__({c}) through the wrapper answered {n_}, the store holds {want}")
+                obs.append(str(n_))
+            elif kind == "ctxs":
+                cs = sorted(gn_rev.get(x.identifier, 98) for x in st.contexts())
+                if not {q[3] for q in B} <= set(cs):
+                    viol.append(f"read: op {k} contexts() through the wrapper answered {cs}, the store holds quads in {sorted({q[3] for q in B})}")
+                obs.append(",".join(map(str, cs)))
+            elif kind == "tctx":
+                s, p, o = op[2:5]
+                cs = sorted(gn_rev.get(x.identifier, 98) for x in st.contexts((t(s), t(p), t(o))))
+                want = sorted(q[3] for q in B if q[:3] == (s, p, o))
+                if cs != want:
+                    viol.append(f"read: op {k} contexts({(s, p, o)}) through the wrapper answered {cs}, the store holds it in {want}")
+                obs.append(",".join(map(str, cs)))
+            else:
+                ns, pf, listed = _bindings(st)
+                if sorted(ns) != listed:
+                    viol.append(f"read: op {k} namespaces() lists {listed} but namespace() answers {sorted(ns)}")
+                obs.append(_fmt_bind(ns, pf))
+            after, _n = _quads(mem, gn_rev, term_rev)
+            if after != before:
+                viol.append(f"read: op {k} ({kind}) changed the store")
+            continue
+        route = op[6] if kind in ("add", "remove") and len(op) > 6 else None
+        if kind == "bind":
+            taken = st.namespace(PFX[op[2]]) is not None or st.prefix(NSP[op[3]]) is not None
+            st.bind(PFX[op[2]], NSP[op[3]], override=bool(op[4]))
+            if not op[4] and taken and _bindings(st)[:2] != bind_before:
+                viol.append(f"bind: op {k} bind({op[2]}, {op[3]}, override=False) through the wrapper changed existing bindings "
+                            f"{bind_before} -> {_bindings(st)[:2]}")
+            if op[4] and (st.namespace(PFX[op[2]]) != NSP[op[3]] or st.prefix(NSP[op[3]]) != PFX[op[2]]):
+                viol.append(f"bind: op {k} bind({op[2]}, {op[3]}, override=True) through the wrapper did not take effect")
+        elif kind == "pass":
+            what = op[2]
+            if what == "open":
+                st.open("cfg")
+            elif what == "close":
+                st.close()
+            elif what == "close_commit":
+                st.close(True)
+            elif what == "destroy":
+                st.destroy("cfg")
+            else:
+                try:
+                    st.query("SELECT * WHERE { ?s ?p ?o }", {}, {}, "__UNION__")
+                except NotImplementedError:
+                    pass
+        elif kind == "add":
+            s, p, o, c = op[2:6]
+            if route == "store":
+                st.add((t(s), t(p), t(o)), ctx_of(st, c))
+            elif cfg == "graph":
                 top.add((t(s), t(p), t(o)))
+            elif route == "ident":
+                top.add((t(s), t(p), t(o), gn[c]))
+            elif route == "ctxobj":
+                handed_out(top, c).add((t(s), t(p), t(o)))
+            elif route == "self" and c == DEFAULT_G:
+                top.add((t(s), t(p), t(o), top))
             elif k % 2 == 0:
                 top.add((t(s), t(p), t(o), top.get_context(gn[c])))
             else:
@@ -222,6 +452,25 @@ def run_impl(case):
             else:
                 top.get_context(gn[c_]).parse(data=text, format="nt")
             dirty[w] = True
+        elif kind == "upd":
+            sub = op[2]
+
+            def n3(x):
+                return TERM[x].n3()
+
+            def wrap(body, c_):
+                return body if (cfg == "graph" or c_ is None or (c_ == DEFAULT_G and sub != "delwhere")) else "GRAPH %s { %s }" % (gn[c_].n3(), body)
+            if sub in ("insert", "delete"):
+                qs = op[3]
+                body = " ".join("%s %s %s ." % (n3(s_), n3(p_), n3(o_)) for s_, p_, o_, _c in qs)
+                top.update("%s DATA { %s }" % ("INSERT" if sub == "insert" else "DELETE", wrap(body, qs[0][3])))
+            elif sub == "clear":
+                top.update("CLEAR GRAPH %s" % gn[op[3]].n3())
+            else:
+                s, p, o, c = op[3:7]
+                body = "%s %s %s ." % tuple(("?v%d" % j) if x is None else n3(x) for j, x in enumerate((s, p, o)))
+                top.update("DELETE WHERE { %s }" % wrap(body, c))
+            dirty[w] = True
         elif kind == "set":
             s, p, o, c = op[2:]
             (top if cfg == "graph" else top.get_context(gn[c])).set((t(s), t(p), t(o)))
@@ -235,29 +484,67 @@ def run_impl(case):
             top.remove_context(top.get_context(gn[op[2]]))
             dirty[w] = True
         elif kind == "remove":
-            s, p, o, c = op[2:]
-            if cfg == "graph":
+            s, p, o, c = op[2:6]
+            if route == "store":
+                st.remove((t(s), t(p), t(o)), ctx_of(st, c))
+            elif cfg == "graph":
                 top.remove((t(s), t(p), t(o)))
             elif c is None:
                 top.remove((t(s), t(p), t(o)))
+            elif route == "ident":
+                top.remove((t(s), t(p), t(o), gn[c]))
+            elif route == "ctxobj":
+                handed_out(top, c).remove((t(s), t(p), t(o)))
+            elif route == "self" and c == DEFAULT_G:
+                top.remove((t(s), t(p), t(o), top))
             elif k % 2 == 0:
                 top.remove((t(s), t(p), t(o), top.get_context(gn[c])))
             else:
                 top.get_context(gn[c]).remove((t(s), t(p), t(o)))
             dirty[w] = True
         elif kind == "commit":
-            top.commit()
+            (st if (nest and w == 1) else top).commit()
         elif kind == "rollback":
-            top.rollback()
+            (st if (nest and w == 1) else top).rollback()
         after, raw_n = _quads(mem, gn_rev, term_rev)
         if raw_n != len(after):
             viol.append(f"dup: store yields duplicate quads after op {k}")
         if any(q[3] == 98 for q in after):
             viol.append(f"graph: after op {k} the store holds quads in a graph no operation named: "
                         f"{[q for q in after if q[3] == 98]}")
-        obs.append(" ".join(",".join(map(str, q)) for q in after))
+        line = " ".join(",".join(map(str, q)) for q in after)
+        obs.append(line)
+        if not nest:
+            obs.append(line)        # compared with the abstract model too (`obsw`)
         A, B = set(after), set(before)
+        if kind in ("bind", "pass") and A != B:
+            viol.append(f"pass: op {k} ({kind}) is handed to the wrapped store and must not change a quad")
+        if kind != "bind" and not simple and _bindings(st)[:2] != bind_before:
+            viol.append(f"frame: op {k} ({kind}) changed the namespace bindings {bind_before} -> {_bindings(st)[:2]}")
         mine = terr(w)
+        if nest:
+            if kind == "rollback":
+                if dirty[0]:
+                    nontrivial = True
+                if w == 0:
+                    if not inner_rb and A != snap[0]:
+                        viol.append(f"rollback: after op {k} (outer rollback) store has {sorted(A)} but the outer transaction "
+                                    f"began with {sorted(snap[0])}")
+                    snap[0], inner_rb = set(A), False
+                else:
+                    if A != snap[1]:
+                        viol.append(f"rollback: after op {k} (inner rollback) store has {sorted(A)} but the inner transaction "
+                                    f"began with {sorted(snap[1])}")
+                    snap[1], inner_rb = set(A), True
+            elif kind == "commit":
+                if dirty[0]:
+                    nontrivial = True
+                if A != B:
+                    viol.append(f"commit: op {k} changed the store")
+                snap[w] = set(A)
+                if w == 0:
+                    inner_rb = False
+            continue
         if kind == "rollback":
             if dirty[w]:
                 nontrivial = True
@@ -275,10 +562,18 @@ def run_impl(case):
             dirty[w] = False
         if kind in ("rollback", "commit"):
             snap[w] = set(A)
+    kinds = [o[0] for o in case["ops"]]
     return {"obs": obs, "viol": viol, "nontrivial": nontrivial,
             "key": repr((case["cfg"], case["two"], case["init"], case["ops"])),
             "stats": {"ops": len(case["ops"]), "cfg_" + case["cfg"]: 1, "two_wrappers": int(case["two"]),
                       **{"op_" + o[0]: 1 for o in case["ops"]},
+                      **{"route_" + o[6]: 1 for o in case["ops"] if o[0] in ("add", "remove") and len(o) > 6},
+                      **{"pass_" + o[2]: 1 for o in case["ops"] if o[0] == "pass"},
+                      **{"sparql_update_" + o[2]: 1 for o in case["ops"] if o[0] == "upd"},
+                      "reads": sum(1 for x in kinds if x in READS),
+                      "remove_all_graphs": sum(1 for o in case["ops"] if o[0] == "remove" and o[5] is None),
+                      "remove_fully_bound": sum(1 for o in case["ops"] if o[0] == "remove" and None not in o[2:6]),
+                      "nest_inner_boundary": int(nest and any(o[0] in ("commit", "rollback") and o[1] == 1 for o in case["ops"])),
                       "parse_in_transaction": int(any(o[0] == "parse" for o in case["ops"])),
                       "addf_foreign_graph_object": int(any(o[0] == "addf" for o in case["ops"])),
                       "addn_with_duplicate": int(any(o[0] == "addn" and len({tuple(q) for q in o[2]}) < len(o[2]) for o in case["ops"]))}}
@@ -289,44 +584,72 @@ def _w(x):
 
 
 def _op_lines(op):
-    """the model-side lines of one harness op (every compound op is the sequence of its adds / removes)"""
+    """the model-side line of one harness op; compound operations are expanded into the wrapper's calls by the MODEL
+    (`GOp.expand` in XModel.lean), not here"""
     k, w = op[0], op[1]
     if k in ("add", "remove"):
-        return [f"{k} {w} " + " ".join(_w(x) for x in op[2:])]
+        return [f"{k} {w} " + " ".join(_w(x) for x in op[2:6])]
     if k in ("addn", "parse"):
-        return [f"add {w} " + " ".join(_w(x) for x in q) for q in op[2]]
+        return [f"addn {w} " + " ".join(" ".join(_w(x) for x in q) for q in op[2])]
     if k == "addf":
-        return ([f"add {w} " + " ".join(_w(x) for x in list(e) + [op[2][3]]) for e in op[3]]
-                + [f"add {w} " + " ".join(_w(x) for x in op[2])])
+        return [f"addf {w} " + " ".join(_w(x) for x in op[2]) + "".join(" " + " ".join(_w(x) for x in e) for e in op[3])]
     if k == "set":
-        s_, p_, o_, c_ = op[2:]
-        return [f"remove {w} {s_} {p_} * {c_}", f"add {w} {s_} {p_} {o_} {c_}"]
+        return [f"set {w} " + " ".join(_w(x) for x in op[2:6])]
     if k == "isub":
-        return [f"remove {w} " + " ".join(_w(x) for x in q) for q in op[2]]
+        return [f"isub {w} " + " ".join(" ".join(_w(x) for x in q) for q in op[2])]
     if k == "rmctx":
-        return [f"remove {w} * * * {op[2]}"]
+        return [f"rmctx {w} {op[2]}"]
+    if k == "upd":
+        sub = op[2]
+        if sub == "insert":
+            return [f"addn {w} " + " ".join(" ".join(_w(x) for x in q) for q in op[3])]
+        if sub == "delete":
+            return [f"isub {w} " + " ".join(" ".join(_w(x) for x in q) for q in op[3])]
+        if sub == "clear":
+            return [f"rmctx {w} {op[3]}"]
+        return [f"remove {w} " + " ".join(_w(x) for x in op[3:7])]
+    if k == "bind":
+        return [f"bind {w} {op[2]} {op[3]} {op[4]}"]
+    if k == "pass":
+        return [f"pass {w}"]
     return [f"{k} {w}"]
 
 
-def model_lines(case):
-    lines = ["reset"]
+def _read_line(op):
+    k = op[0]
+    if k == "triples":
+        return "triples " + " ".join(_w(x) for x in op[2:6])
+    if k == "len":
+        return "len " + _w(op[2])
+    if k == "tctx":
+        return "tctx " + " ".join(str(x) for x in op[2:5])
+    return k
+
+
+def _case_lines(case):
+    """[(line, observed?)] of the whole case"""
+    nest = case["cfg"] == "nest"
+    out = [("reset-nested" if nest else "reset", False)]
     for q in case["init"]:
-        lines.append("init " + " ".join(map(str, q)))
+        out.append(("init " + " ".join(map(str, q)), False))
     for op in case["ops"]:
-        lines.extend(_op_lines(op))
-        lines.append("obs")
-    return lines
+        if op[0] in READS:
+            out.append((_read_line(op), True))
+            continue
+        out.extend((ln, False) for ln in _op_lines(op))
+        out.append(("obs", True))
+        if not nest:
+            out.append(("obsw", True))
+    return out
+
+
+def model_lines(case):
+    return [ln for ln, _ in _case_lines(case)]
 
 
 def select_model_obs(case, out):
-    # keep only the answers to `obs` (every op is followed by exactly one `obs`)
-    i = 1 + len(case["init"])
-    res = []
-    for op in case["ops"]:
-        i += len(_op_lines(op))
-        res.append(out[i])
-        i += 1
-    return res
+    # keep only the answers to the observed lines
+    return [out[i] for i, (_ln, seen) in enumerate(_case_lines(case)) if seen]
 
 
 def shrink(case):
@@ -358,4 +681,10 @@ def _m_foreign(case, result):
     return any(o[0] == "addf" for o in case["ops"]) and any(v.startswith("rollback") for v in result["viol"])
 
 
-MATCHERS = {"remove_readd_rollback": _m_readd, "foreign_graph_object": _m_foreign}
+def _m_cg_as_graph(case, result):
+    """a wildcard remove whose graph is the ConjunctiveGraph itself, then rollback"""
+    return (any(o[0] == "remove" and len(o) > 6 and o[6] == "self" and None in o[2:5] for o in case["ops"])
+            and any(v.startswith("rollback") for v in result["viol"]))
+
+
+MATCHERS = {"conjunctive_graph_as_context": _m_cg_as_graph, "remove_readd_rollback": _m_readd, "foreign_graph_object": _m_foreign}
